@@ -92,6 +92,11 @@ CALLED = [
     "Select(ds, lambda {A}: (lambda {P}, {Q}=1: {P} - {Q})({A}.i_pt, {A}.i_eta))",
     "Select(ds, lambda {A}: (lambda {P}=5, {Q}=1: {P} - {Q})({Q}={A}.i_pt))",
     "Select(ds, lambda {A}: Select({A}.so_jets, lambda {C}: (lambda {P}, {Q}={A}.i_pt: {P}.i_pt + {Q})({C})))",
+    # default values on lambdas that are handed to an operator (not called on the spot): the default is evaluated where the lambda is written
+    "Select(ds, lambda {A}: (lambda {P}: Count(Select({A}.so_jets, lambda {C}, {Q}={P}: {C}.i_pt + {Q})))({A}.i_eta))",
+    "Select(ds, lambda {A}: Select({A}.so_jets, lambda {C}, {Q}={A}.i_pt: {C}.i_pt + {Q}))",
+    "Select(Select(ds, lambda {A}: {A}.o_p), lambda {B}: Count(Where({B}.so_jets, lambda {C}, {Q}={B}.i_pt: {C}.i_pt > {Q})))",
+    "Select(ds, lambda {A}: (lambda {P}: Select({A}.so_jets, lambda {C}, {Q}={P} + 1: (lambda {P}: {P} + {Q})({C}.i_pt)))({A}.i_eta))",
     # lambdas without parameters
     "Select(Select(ds, lambda {A}: First({A}.so_jets)), lambda {B}: (lambda: 1000)() + {B}.i_pt)",
     "Select(Select(ds, lambda {A}: {A}.o_p), lambda {B}: Count(Select({B}.so_jets, lambda {C}: (lambda: {B}.i_eta)() + {C}.i_pt + {B}.i_pt)))",
@@ -122,6 +127,12 @@ LITERAL = [
     "Select(ds, lambda {A}: {{'a': {A}.i_pt, 'b': {A}.i_eta}}['b'])",
     "Select(ds, lambda {A}: {{'a': {A}.i_pt, 'b': {A}.i_eta}}.a)",
     "Select(ds, lambda {A}: (({A}.i_pt, {A}.o_p), {A}.i_eta)[0][1].i_pt)",
+    # a dictionary display that repeats a key: Python keeps the last value
+    "Select(ds, lambda {A}: {{'a': {A}.i_pt, 'a': {A}.i_eta}}['a'])",
+    "Select(ds, lambda {A}: {{'a': {A}.i_pt, 'b': 1, 'a': {A}.i_eta}}.a)",
+    "Select(Select(ds, lambda {A}: {{'k': {A}.i_pt, 'k': {A}.o_p}}), lambda {B}: {B}.k.i_eta)",
+    "Select(ds, lambda {A}: {{1: {A}.i_pt, True: {A}.i_eta}}[1])",
+    "Select(ds, lambda {A}: {{0: {A}.i_pt, 1: {A}.i_eta}}[True] + {{0: {A}.i_pt, 1: {A}.i_eta}}[0])",
     "Select(Select(ds, lambda {A}: ({A}, {A}.so_jets)), lambda {B}: Select({B}[1], lambda {A}: {A}.i_pt + {B}[0].i_pt))",
     "Select(Select(ds, lambda {A}: {{'e': {A}, 'j': {A}.so_jets}}), lambda {B}: Select({B}.j, lambda {C}: {C}.i_pt + {B}.e.i_pt))",
     "Select(Where(Select(ds, lambda {A}: ({A}.i_pt, {A}.so_jets)), lambda {B}: {B}[0] > 1), lambda {C}: Count({C}[1]) + {C}[0])",
